@@ -139,6 +139,9 @@ func ParseResponse(data []byte, req *http.Request) (resp *Response, err error) {
 	if err != nil {
 		return nil, errors.Join(errInvalidResponse, fmt.Errorf("failed to read response: %w", err))
 	}
+	// Serialising may re-introduce connection-level fields (e.g. "Connection:
+	// close" for HTTP/1.0 responses); they are never replayed (RFC 9111 §3.1).
+	removeHopByHopHeaders(r)
 	resp.Data = r
 	return resp, nil
 }
